@@ -39,6 +39,14 @@ CLAIMED = {
    technique="contract-based deductive verification: VCs from the jaxpr of boundary_condition_apply / the four boundary "
              "functions over uninterpreted network and f, ring normalisation + z3",
    design_ref="DESIGN.md §5 C04", note=B_NOTE + " Rows per facet enumerated 1..3; facet order is the generator's (C08)."),
+ "C05": dict(
+   text="initial-condition (ODE at t0; PDE over the batch at t=0), normalisation (w*(L*mean_s u - 1)^2, averaged over "
+        "batch times when u depends on time) and observation terms (row i with row i of every observed parameter, "
+        "slice_solution then obs_slice) computed by the real code equal their definitions for all networks, tables, "
+        "samples and weights.",
+   technique="contract-based deductive verification: VCs from the jaxpr of the real *_apply functions and evaluate "
+             "methods over uninterpreted networks/functions, ring normalisation + z3",
+   design_ref="DESIGN.md §5 C05", note=B_NOTE + " Normalisation is stated for scalar-valued u; counts enumerated 1..3."),
 }
 PENDING_REASON = "check not built yet (framework under construction); will be claimed once its contracts verify"
 NA = {}
